@@ -79,6 +79,12 @@ COLD_CORPUS = [
     (['list', [['str', 'epsilon zeta'], ['bytes', b'epsilon zeta'.hex()], ['float', '0.0'], ['int', 1]]], {}),
     (['list', [['set', []], ['sub', 'list', 'plain', ['list', []]], ['fset', []], ['sub', 'dict', 'plain', ['dict', []]]]], {}),
     (['list', [['std', 'chainmap', [[], [[['str', 'k'], ['int', 1]]], [], []]], ['std', 'deque', [['int', 1]], 3]]], {}),
+    # struct sequences of other classes (os.stat_result has unnamed fields), each with a parseable and an unparseable repr
+    (['std', 'structseq', 'stat_result', [['int', 33188 + j] for j in range(10)]], {}),
+    (['std', 'structseq', 'stat_result', [['opaque', 3]] + [['int', j] for j in range(1, 10)]], {}),
+    (['std', 'structseq', 'terminal_size', [['int', 80], ['int', 24]]], {}),
+    (['std', 'structseq', 'terminal_size', [['int', 80], ['opaque', 4]]], {}),
+    (['std', 'structseq', 'times_result', [['float', '0.5'], ['float', '0.25'], ['float', '0.0'], ['float', '0.0'], ['float', '17.0']]], {}),
     # a struct sequence whose repr cannot be parsed (D26: printed differently before / after the field names were resolved)
     (['std', 'struct_time_x', [['opaque', 1]] + [['int', j] for j in range(1, 9)]], {}),
     (['list', [['std', 'struct_time_x', [['int', 1], ['opaque', 2]] + [['int', j] for j in range(2, 9)]], ['std', 'struct_time', [2021, 1, 2, 3, 4, 5, 3, 2, 0]]]], {}),
@@ -358,6 +364,8 @@ INTERFERERS = [
     ('ok', ['tcmt', 'a\n  \nb', ['list', [['int', 1]]]], {}),
     ('ok', ['dict', [[['cmt', 'k\n \n', ['int', 1]], ['int', 2]]]], {}),
     ('ok', CLASHING_TUPLE_KEYS, {'sort_dict_keys': True}),
+    ('ok', ['std', 'structseq', 'stat_result', [['int', 1], ['opaque', 5]] + [['int', j] for j in range(2, 10)]], {}),
+    ('ok', ['std', 'structseq', 'terminal_size', [['opaque', 6], ['int', 24]]], {}),
     ('ok', ['list', [['sub', 'str', 'ci', ['str', 'EPSILON ZETA ETA THETA IOTA KAPPA LAMBDA MU']], ['float', '-0.0'], ['bool', True]]], {'width': 20}),
     ('ok', ['list', [['sub', 'str', 'ci', ['str', 'EPSILON ZETA']], ['sub', 'bytes', 'ci', ['bytes', b'EPSILON ZETA'.hex()]], ['float', '-0.0'], ['bool', True]]], {}),
     ('ok', ['list', [['set', []], ['sub', 'list', 'plain', ['list', []]], ['fset', []], ['sub', 'dict', 'plain', ['dict', []]]]], {'depth': 1}),
